@@ -37,7 +37,7 @@ CLAIMED = {
         technique="machine-checked proof in Coq (fuel sufficiency, no-panic invariant, scheduling invariant over all interleavings of critical sections) + checked model-code correspondence on dumps + watchdog/panic-hook exploration",
     ),
     "C10": dict(
-        text="Coq theorem reachable_shape_ok: in every state reachable by any admissible run, levels >= 1 are sorted and pairwise disjoint, every file's bounds are exactly its first and last entry with smallest <= largest, and file numbers are unique (part of the invariant lsm_wf_b, which is preserved by every step and never panics). Tied to the code by judging every structural dump (file bounds plus entries read back from each table) with the extracted invariant, cross-checking SSTables / NumFilesAtLevel against the dump, across reopens with changed options.",
+        text="Coq theorem reachable_shape_ok: in every state reachable by any admissible run, levels >= 1 are sorted and pairwise disjoint, every file's bounds are exactly its first and last entry with smallest <= largest, and file numbers are unique (part of the invariant lsm_wf_b, which is preserved by every step and never panics). The compaction triggers are modelled too (Pick.v): the level Version::finalize picks has the first maximal size score, and the file that iterator read samples schedule for a seek compaction lives at the level recorded with it, for every sequence of samples. Tied to the code by function-level differential execution of the score and of read sampling, by judging every structural dump (file bounds plus entries read back from each table) with the extracted invariant, cross-checking SSTables / NumFilesAtLevel against the dump, across reopens with changed options.",
         note="Trusted as for C01. The manifest codec (persist/recover) is exercised by reopen histories but not yet modelled byte for byte.",
         design="6 / C10",
         technique="machine-checked proof in Coq (invariant by induction over all step sequences) + checked model-code correspondence",
